@@ -54,9 +54,11 @@ class SymSet:
 
     __pyvc_symbolic__ = True
 
-    def __init__(self, member, name="set", nonempty=None):
+    def __init__(self, member, name="set", nonempty=None, has_null=False):
         self.member = member  # python fn: value -> bool/SBool
         self.name = name
+        # the missing value (NaN / None) is an element: `Series.unique()` of either library lists it once when a cell is missing
+        self.has_null = has_null
 
     @classmethod
     def fresh(cls, name, kind="real"):
@@ -361,7 +363,8 @@ class SeriesVal:
         return self.derive(at=at, null=lambda i: z3.BoolVal(False), kind="bool")
 
     def unique(self):
-        return SymSet(lambda v: self.exists(lambda i: z3.And(z3.Not(self.null(i)), _zb(py_eq(self.at(i), v)))), "unique")
+        return SymSet(lambda v: self.exists(lambda i: z3.And(z3.Not(self.null(i)), _zb(py_eq(self.at(i), v)))), "unique",
+                      has_null=self.exists(lambda i: self.null(i)))
 
     def head(self, n=5):
         return self.derive(sel=lambda i: z3.And(self._sel(i), self._pos_lt(i, n)))
